@@ -20,12 +20,6 @@ open List
 
 /-! ### operators = list functions of the batch -/
 
-theorem aux_enum (n : Nat) (l : List Val) :
-    (mealyList enumStep n l).2 = (l.zipIdx n).map (fun p => Val.pair (.int p.2) p.1) := by
-  induction l generalizing n with
-  | nil => simp [mealyList]
-  | cons x xs ih => simp [mealyList, enumStep, ih, List.zipIdx_cons]
-
 theorem aux_limit (n c : Nat) (l : List Val) :
     (mealyList (limitStep n) c l).2 = l.take (n - c) := by
   induction l generalizing c with
@@ -36,25 +30,6 @@ theorem aux_limit (n c : Nat) (l : List Val) :
       simp [mealyList, limitStep, h, ih, this]
     · have : n - c = 0 := by omega
       simp [mealyList, limitStep, h, ih, this]
-
-theorem aux_reduce (f : Val → Val → Val) (l : List Val) :
-    l.foldl (reduceStep f) none = match l with | [] => none | x :: xs => some (xs.foldl f x) := by
-  cases l with
-  | nil => rfl
-  | cons x xs =>
-    simp only [List.foldl_cons, reduceStep]
-    generalize x = a
-    induction xs generalizing a with
-    | nil => rfl
-    | cons y ys ih => simp [List.foldl_cons, reduceStep, ih]
-
-theorem aux_uniq_sublist (seen l : List Val) : (mealyList uniqStep seen l).2.Sublist l := by
-  induction l generalizing seen with
-  | nil => simp [mealyList]
-  | cons x xs ih =>
-    by_cases hx : x ∈ seen
-    · simpa [mealyList, uniqStep, hx] using (ih seen).cons x
-    · simpa [mealyList, uniqStep, hx] using (ih (x :: seen)).cons_cons x
 
 /-- the closure of `count()`: `|count, _| *count += 1` -/
 def cntF : Val → Val → Val := fun a _ => match a with | .int a => .int (a + 1) | a => a
